@@ -268,11 +268,11 @@ func (s *syncCase) diffSides() (class, what string, err error) {
 func runC02(tier string, _ []string) int {
 	c := vlib.NewCtx("C02", tier, "exploration")
 	vlib.SetPortBlock(2)
-	c.SetRule("per scenario a downstream instance (real Sync client, period 1 s) linked to a bare upstream instance; a PRNG history of 6-25 acknowledged steps over {node-point write, edge-point write, create node, delete, undelete} x {downstream, upstream} x nodes inside the device subtree (nested groups), interleaved with link loss (sync node disabled), recovery, upstream restarts on the same file (also in two steps: the bus first, the store later, so that the downstream's reconnect and first catch-up attempt find a bus nobody answers on) and writes placed *inside* a catch-up pass (performed from the sync.afterLocalFetch / afterRemoteFetch / beforeChildren hook sites in the sync client's own goroutine, aimed at the node the pass is comparing), always followed by a fixed list of corner scenarios (both sides write one identity during an outage; create upstream / downstream during an outage; delete downstream / upstream during an outage; delete + undelete; nested create under a node created during the outage). After the last write the link is up; catch-up passes are counted passively (nodes.all.<device> requests on the downstream bus) and after each pass both device subtrees are walked (deleted included) and compared: placements, newest point per identity of every node and edge. Convergence is demanded within 10 passes and must then hold on two consecutive walks; the agreed value of every identity the harness wrote must be at least as new as the newest acknowledged write on either side, and anything newer must have been seen on a bus. distinct = (set of operation kinds performed during outages, passes needed)")
+	c.SetRule("per scenario a downstream instance (real Sync client, period 1 s) linked to a bare upstream instance; a PRNG history of 6-25 acknowledged steps over {node-point write, edge-point write, create node, delete, undelete} x {downstream, upstream} x nodes inside the device subtree (nested groups), interleaved with link loss (sync node disabled), recovery, upstream restarts on the same file (also in two steps: the bus first, the store later, so that the downstream's reconnect and first catch-up attempt find a bus nobody answers on) restarts of the downstream instance itself, and writes placed *inside* a catch-up pass (performed from the sync.afterLocalFetch / afterRemoteFetch / beforeChildren hook sites in the sync client's own goroutine, aimed at the node the pass is comparing), always followed by a fixed list of corner scenarios (both sides write one identity during an outage; create upstream / downstream during an outage; delete downstream / upstream during an outage; delete + undelete; nested create under a node created during the outage). After the last write the link is up; catch-up passes are counted passively (nodes.all.<device> requests on the downstream bus) and after each pass both device subtrees are walked (deleted included) and compared: placements, newest point per identity of every node and edge. Convergence is demanded within 10 passes and must then hold on two consecutive walks; the agreed value of every identity the harness wrote must be at least as new as the newest acknowledged write on either side, and anything newer must have been seen on a bus. distinct = (set of operation kinds performed during outages, passes needed)")
 	c.Assume("the device's own top edge upstream is not compared (deliberately not synchronised); origins and data are not compared (whole-node transfer stamps the sync node as origin); equal timestamps on one identity are not generated")
-	nScen := c.N(14, 112)
+	nScen := c.N(16, 128)
 	wd := c.NewWatchdog()
-	corners := []string{"both-write-same-identity", "create-upstream", "create-downstream", "delete-downstream", "delete-upstream", "delete-undelete-downstream", "nested-create-downstream", "nested-create-upstream", "upstream-restart", "mid-pass", "upstream-restart-store-late", "edge-point-upstream", "random", "random"}
+	corners := []string{"both-write-same-identity", "create-upstream", "create-downstream", "delete-downstream", "delete-upstream", "delete-undelete-downstream", "nested-create-downstream", "nested-create-upstream", "upstream-restart", "mid-pass", "upstream-restart-store-late", "edge-point-upstream", "downstream-restart", "random", "random", "random"}
 	vlib.Parallel(nScen, 4, func(i int) {
 		r := vlib.NewR(c.Seed, "c02", i)
 		s := &syncCase{c: c, wd: wd, i: i, r: r, clock: 1750000000e9, tapped: map[string]bool{}, outage: map[string]bool{}, history: map[string]bool{}}
@@ -298,7 +298,9 @@ func runC02(tier string, _ []string) int {
 			c.Inconclusive(err.Error())
 			return
 		}
-		defer s.D.Stop()
+		firstD := s.D
+		defer func() { s.D.Stop(); firstD.Cleanup() }()
+		dFile, dPorts := s.D.Opts.StoreFile, s.D.Ports
 		s.devID, s.uRoot = s.D.RootID, s.U.RootID
 		if s.ncD, err = s.D.Connect(); err != nil {
 			c.Inconclusive(err.Error())
@@ -467,6 +469,34 @@ func runC02(tier string, _ []string) int {
 			}
 			// bounded progress: with the upstream complete again, catch-up passes must resume
 			s.waitPasses(2, "catch-up after the upstream's store came back")
+			return nil
+		}
+		// the downstream instance itself is restarted on its file (the sync client starts afresh from
+		// the stored configuration; the link is up again once it has reconnected)
+		restartD := func() error {
+			mark("downstream-restart")
+			s.note("RESTART downstream")
+			s.ncD.Close()
+			s.D.StopKeepFiles()
+			nd, err := vlib.StartInstance(vlib.InstCfg{StoreFile: dFile, Ports: dPorts, Clients: func(nc *nats.Conn) []client.RunStop {
+				return []client.RunStop{client.NewManager(nc, client.NewSyncClient, nil)}
+			}})
+			if err != nil {
+				return fmt.Errorf("%w: downstream does not restart: %v", vlib.ErrInfra, err)
+			}
+			s.D = nd
+			if s.ncD, err = s.D.Connect(); err != nil {
+				return err
+			}
+			if _, err := s.ncD.Subscribe("nodes.all."+s.devID, func(*nats.Msg) { atomic.AddInt64(&s.passes, 1) }); err != nil {
+				return err
+			}
+			if err := s.tap("D", s.ncD); err != nil {
+				return err
+			}
+			if s.linkUp {
+				s.waitPasses(2, "catch-up after the downstream restart")
+			}
 			return nil
 		}
 		restartU := func() error {
@@ -640,6 +670,14 @@ func runC02(tier string, _ []string) int {
 					step(nodeWrite("D", v2))
 					midStep()
 				}
+			case "downstream-restart":
+				step(nodeWrite("U", v1))
+				step(restartD())
+				step(nodeWrite("D", v2))
+				step(setLink(false))
+				step(nodeWrite("U", v2))
+				step(nodeWrite("D", v1))
+				step(restartD()) // restarted while the link is configured down
 			case "upstream-restart-store-late":
 				step(nodeWrite("D", v1))
 				step(restartULate())
@@ -686,6 +724,8 @@ func runC02(tier string, _ []string) int {
 				step(restartU())
 			case roll < 88 && s.linkUp:
 				step(restartULate())
+			case roll < 90:
+				step(restartD())
 			case roll < 96 && s.linkUp:
 				midStep()
 			default:
